@@ -18,13 +18,13 @@ import (
 )
 
 type Server struct {
-	cmd    *exec.Cmd
-	stdin  io.WriteCloser
-	stdout *bufio.Reader
-	Port   int
-	stderr bytes.Buffer
-	mu     sync.Mutex
-	exited chan struct{}
+	cmd     *exec.Cmd
+	stdin   io.WriteCloser
+	stdout  *bufio.Reader
+	Port    int
+	stderr  bytes.Buffer
+	mu      sync.Mutex
+	exited  chan struct{}
 	exitErr error
 }
 
